@@ -2553,6 +2553,12 @@ func (r *RIB) Flush(networkInstances []string) error {
 		}
 
 		for _, id := range backupNHGs {
+			// A backup NHG can be shared by more than one NHG, or may never have been
+			// installed since backup references are not resolved - only remove those
+			// that are still present.
+			if _, ok := niR.r.Afts.NextHopGroup[id]; !ok {
+				continue
+			}
 			delNHG(id)
 		}
 
